@@ -197,6 +197,58 @@ def main():
         if set(tealtok.selector(x) for x in listed) != sels or listed != sorted("%s(uint64)uint64" % nm for nm in names):
             chk.report("C09/contract-vs-program/shared-subroutine-%s" % rname,
                        "a subroutine registered under %r: contract lists %r" % (names, listed), {"names": names, "listed": listed, "approval": ap[:1500]})
+    # a registration the router refuses must leave no trace: later contracts list exactly what the program dispatches on
+    nsg = {"pt": pt, "abi": abi}
+    exec("def alpha(a: abi.Uint64, *, output: abi.Uint64):\n    return output.set(a.get())\n"
+         "def beta(a: abi.String):\n    return pt.Log(a.get())\n"
+         "def gamma(a: abi.Uint8):\n    return pt.Log(a.encode())\n", nsg)
+    router = pt.Router("ghost", pt.BareCallActions())
+    call = pt.MethodConfig(no_op=pt.CallConfig.CALL)
+    router.add_method_handler(pt.ABIReturnSubroutine(nsg["alpha"]), method_config=call)
+    refused = 0
+    for attempt in (lambda: router.add_method_handler(pt.ABIReturnSubroutine(nsg["alpha"]), method_config=call),                       # same signature again
+                    lambda: router.add_method_handler(pt.ABIReturnSubroutine(nsg["gamma"]), method_config=pt.MethodConfig()),          # never callable
+                    lambda: router.add_method_handler(pt.ABIReturnSubroutine(nsg["gamma"]), overriding_name="alpha", method_config=call)):
+        try:
+            attempt()
+        except abitypes.replay.PYTEAL_ERRORS:
+            refused += 1
+    router.add_method_handler(pt.ABIReturnSubroutine(nsg["beta"]), method_config=call)
+    ap, cl, contract = router.compile_program(version=8)
+    listed = sorted(m.get_signature() for m in contract.methods)
+    sels = set(bytes(i["b"]) for i in tealtok.parse_program(ap)[0] if i["op"] == "method")
+    if len(set(listed)) != len(listed) or set(tealtok.selector(x) for x in listed) != sels:
+        chk.report("C09/contract-vs-program/after-refused-registrations", "after %d refused registrations the contract lists %r, the program dispatches on %d selectors" % (refused, listed, len(sels)),
+                   {"listed": listed, "approval": ap[:1500]})
+    chk.notes["refused_registrations"] = refused
+    # results of every basic type: the return log is the prefix 151f7c75 followed by the ARC-4 encoding of the result
+    rtypes, gr = abitypes.gen("level1", 1, "c09r")
+    chk.add_tlc(gr)
+    want = ("bool", "byte", "uint8", "uint16", "uint32", "uint64", "address", "string", "bool[9]", "uint16[2]", "(uint8,string)", "(bool,bool)")
+    out0 = next((o for q, o in zip(reqs, outs) if not q["params"]), None)
+    for d in [x for x in rtypes if x["sig"] in want]:
+        val = d["vals"][0]
+        nsr = {"pt": pt, "abi": abi, "T": abitypes.to_spec(d["t"]).annotation_type(), "abiprog": abiprog, "d": d, "val": val}
+        exec("def ret(*, output: T):\n    stmts = []\n    x = abiprog.build_value(d['t'], val['v'], stmts)\n    return pt.Seq(*stmts, output.decode(x.encode()))\n", nsr)
+        sigstr = "ret()%s" % d["sig"]
+        try:
+            router = pt.Router("c09r", pt.BareCallActions())
+            router.add_method_handler(pt.ABIReturnSubroutine(nsr["ret"]), method_config=call)
+            rs = [{"teal": router.compile_program(version=v)[0], "st": {"v": v}} for v in versions]
+        except abitypes.replay.PYTEAL_ERRORS as e:
+            chk.report("C09/router-rejected/%s" % type(e).__name__, "%s: %s" % (sigstr, e), {"sig": sigstr})
+            continue
+        if out0 is None:
+            chk.machinery_failure("no argument-less signature in the catalogue")
+            break
+        recipe = abiprog.expect_log([[0x15, 0x1f, 0x7c, 0x75] + list(val["enc"])])
+        cx = batch.default_cx(recipe)
+        cx["rawctx"] = context(tealtok.selector(sigstr), out0, None)
+        e, meta = pipeline.make_entry(len(entries) + 1, recipe, rs, cx)
+        if e["texts"]:
+            entries.append(e)
+            metas.append(meta)
+            descr.append("%s values#0 ok-call" % sigstr)
     for how in ("overriding_name", "decorator_name"):
         ns = {"pt": pt, "abi": abi}
         exec("def original(a: abi.Uint64, *, output: abi.Uint64):\n    return output.set(a.get())\n", ns)
